@@ -75,19 +75,24 @@ func verifRoot() string {
 
 func loadKnown(id string) map[string]string {
 	out := map[string]string{}
-	data, err := os.ReadFile(filepath.Join(verifRoot(), "known_findings.json"))
-	if err != nil {
-		return out
-	}
-	var file struct {
-		Findings []knownFinding `json:"findings"`
-	}
-	if err := json.Unmarshal(data, &file); err != nil {
-		return out
-	}
-	for _, f := range file.Findings {
-		if f.Property == id && f.Status == "known" {
-			out[f.Key] = f.What
+	paths := []string{filepath.Join(verifRoot(), "known_findings.json")}
+	more, _ := filepath.Glob(filepath.Join(verifRoot(), "known_findings.d", "*.json"))
+	paths = append(paths, more...)
+	for _, path := range paths {
+		data, err := os.ReadFile(path)
+		if err != nil {
+			continue
+		}
+		var file struct {
+			Findings []knownFinding `json:"findings"`
+		}
+		if err := json.Unmarshal(data, &file); err != nil {
+			continue
+		}
+		for _, f := range file.Findings {
+			if f.Property == id && f.Status == "known" {
+				out[f.Key] = f.What
+			}
 		}
 	}
 	return out
